@@ -25,6 +25,9 @@ TECHNIQUE += '; def-use, backward liveness and a frame-slot value-preservation a
 
 EXPLANATION += ' A64-RT-STOREORDER, CTOR-INIT.'
 
+EXPLANATION += ' A64-LOOPLOAD.'
+CLAIM += (' The load half of the loop, with the scratchpad masks either generator writes, executed on terms: r_j ^= quadword j at scratchpad + (spMix low & L3 mask); the sixteen sign-extended 32-bit integers at scratchpad + (spMix high & L3 mask) go to the lanes of v16..v23 in order; only e0-e3 are masked (A64-LOOPLOAD).')
+
 
 def run(ctx, R):
     FI = astq.Facts(ctx, 'K0')
